@@ -392,6 +392,8 @@ def c07ToCheck (m : Msg) (obj : GoVal) (tf : TfVal) : Bool :=
 /-- expected read diagnostics at one object level (missing attributes / wrong Go type of the attribute) -/
 def c06FromLevel (fs : List Field) (attrs : List (String × TfVal)) : List Diag :=
   fs.filterMap fun f =>
+    -- the placeholder of a message without fields stands for no field: CopyFrom never reads it
+    if f.info.isPlaceholder then none else
     match attrs.lookup f.info.nameSnake with
     | none => some (.readMissing f.info.path)
     | some a =>
